@@ -4,7 +4,8 @@ import sys
 from pathlib import Path
 
 sys.path.insert(0, str(Path(__file__).resolve().parent))
-HOOK_COMMITS = ["cb4264030cb3c36884ac8c9b023f87c48de77a6b"]  # H1: arena fault point (asmjit/support/arena.h, arena.cpp)
+HOOK_COMMITS = ["cb4264030cb3c36884ac8c9b023f87c48de77a6b",   # H1: arena fault point (asmjit/support/arena.h, arena.cpp)
+                "d6210ddbd91cb3b9a73e45ba36e95b2d5074b412"]   # H2: JitAllocator critical-section event (asmjit/core/jitallocator.cpp)
 CHECKS = []
 for f in sorted((Path(__file__).resolve().parent / "props").glob("c[0-9][0-9].py")):
     mod = importlib.import_module("props." + f.stem)
